@@ -606,6 +606,10 @@ def _sep(rng):
 
 
 def _pad(rng):
+    # surrounding whitespace in str.strip()'s sense: blanks and tabs mostly, now and then the other ASCII whitespace characters
+    # (form feed, vertical tab, carriage return, the FS/GS/RS/US separators) that a line-splitting routine may treat as line ends
+    if rng.random() < 0.12:
+        return rng.choice(["\x0c", "\x0b", "\r", "\x1c", "\x1d", "\x1e", "\x1f", " \x0c", "\x0b\t"])
     return rng.choice(["", "", " ", "\t", "   ", " \t"])
 
 
@@ -1485,8 +1489,9 @@ def close_pair_stream(ctx, out: Outcome):
     """validated molecules with an atom pair between 0.1 bohr and 0.1 angstrom apart, written in angstrom"""
     qcel = _qcel()
     rng = ctx.rng
-    for _ in range(ctx.scale(6, 30)):
-        d = rng.choice([0.11, 0.15, 0.18])
+    for _ in range(ctx.scale(16, 80)):
+        # 0.11-0.18 bohr: the recorded class (closer than 0.1 angstrom); 0.19-0.6 bohr: beyond 0.1 angstrom, must read back in either unit
+        d = rng.choice([0.11, 0.15, 0.18, 0.19, 0.2, 0.25, 0.3, 0.35, 0.37, 0.45, 0.6])
         zs = rng.sample(["He", "Ne", "H", "Li", "O"], 2)
         geom = [0.0, 0.0, 0.0, 0.0, 0.0, d]
         fmt = rng.choice(["xyz", "xyz+", "psi4"])
@@ -1508,7 +1513,7 @@ def _closepair_case(ctx, out: Outcome, case):
     if mm[0] == "err":
         kind = "oracle:roundtrip_tooclose_units" if (mm[1] == "Validation" and "too close" in mm[2]) else "oracle:roundtrip_read"
         out.violations.append(Finding(kind, case, observed=mm[1] + ": " + mm[2], expected="same molecule",
-                                      detail="a validated molecule (pair distance between 0.1 bohr and 0.1 angstrom) written in angstrom is refused on reading: the closeness screen is applied in the text's units"))
+                                      detail="a validated molecule with a close atom pair (>= 0.1 bohr) written in angstrom is refused on reading (recorded class: the pair is closer than 0.1 angstrom and the screen is applied in the text's units)"))
     elif mm[1].get_hash() != m.get_hash():
         out.violations.append(Finding("oracle:roundtrip_hash", case, detail="hash changed"))
 
